@@ -12,8 +12,9 @@ every way an exception can leave the block of opcode `o` (and the `catch (...)` 
 `OP_LOAD_FIELD_VAR`, `OP_STORE_FIELD`, `OP_STORE_FIELD_REF`, `OP_STORE_ARRAY`, `ExecFunction`,
 `executeCommandInternal<true>`), the net height change and the operand bytes consumed at that moment.
 
-Where the current source text has two known shapes (`Gen.caseVariant`, `Gen.helperVariant_*`: 1 = the
-text this file was transcribed from, 2 = with the suggested repair) the paths are given for both.
+Transcribed from the source after the repairs a52b745 (loadTop), e5a4ad9 (OP_STORE_OWNER), 8a45e3b
+(OP_LOAD_STORE_SELF_VAR), 4d71043 (OP_STORE_FIELD_REF), 94b2e98 (OP_STORE_FIELD); `Gen.caseVariant` /
+`Gen.helperVariant_*` (regenerated fingerprints) say whether each block still has the transcribed text.
 -/
 namespace Morfuse.Bytecode
 open Gen
@@ -30,9 +31,8 @@ structure ErrPath where
 private def fieldBytes : Nat := sizeof_name + sizeof_evName
 
 /-- `loadTop<false>`: operands read, then `executeSetter` may throw ("Cannot set a read-only variable", or
-the setter's handler raises); variant 1 leaves the value on the stack (the `Pop` after the `if` is skipped),
-variant 2 pops it in a `catch`. -/
-def loadTopErr : ErrPath := ⟨if helperVariant_loadTop = 2 then -1 else 0, false, some fieldBytes⟩
+the setter's handler raises); the `catch (...)` pops the value like the normal path does, then rethrows -/
+def loadTopErr : ErrPath := ⟨-1, false, some fieldBytes⟩
 
 /-- `storeTop<false>`: operands read, `Push`, then `executeGetter` may throw -/
 def storeTopErr : ErrPath := ⟨1, false, some fieldBytes⟩
@@ -59,39 +59,36 @@ def vmErrPaths : Opcode → List ErrPath
   -- stays and plays the result); later (`ProcessEventReturn`): Pop, Pop(params), Push
   | .OP_FUNC => [⟨0, true, none⟩, ⟨0, true, none⟩]
   | .OP_LOAD_ARRAY_VAR => [⟨-3, false, some 0⟩]
-  -- Pop a; try { cast / NULL: peeks } catch { Pop; skipField if loadTop was not reached }
+  -- Pop a; try { cast / NULL: peeks; loadTop } catch { if loadTop was not reached: Pop, skipField }
   | .OP_LOAD_FIELD_VAR =>
-    [ ⟨-2, false, some fieldBytes⟩,                       -- cast error or NULL listener: Pop, Pop, skipField
-      -- loadTop reached and throws: Pop (a) + loadTop's own behaviour + the catch's Pop (variant 1 only)
-      ⟨-1 + loadTopErr.net + (if caseVariant .OP_LOAD_FIELD_VAR = 2 then 0 else -1), false, some fieldBytes⟩ ]
+    [ ⟨-2, false, some fieldBytes⟩,                       -- cast error or NULL listener: Pop (a), Pop, skipField
+      ⟨-1 + loadTopErr.net, false, some fieldBytes⟩ ]     -- loadTop reached and throws: Pop (a) + loadTop's own repair
   | .OP_LOAD_GAME_VAR | .OP_LOAD_LEVEL_VAR | .OP_LOAD_LOCAL_VAR | .OP_LOAD_PARM_VAR | .OP_LOAD_GROUP_VAR => [loadTopErr]
   -- self NULL: Pop, skipField, throw
   | .OP_LOAD_SELF_VAR => [⟨-1, false, some fieldBytes⟩, loadTopErr]
   | .OP_LOAD_OWNER_VAR => [⟨-1, false, some fieldBytes⟩, ⟨-1, false, some fieldBytes⟩, loadTopErr]
   | .OP_LOAD_STORE_GAME_VAR | .OP_LOAD_STORE_LEVEL_VAR | .OP_LOAD_STORE_LOCAL_VAR | .OP_LOAD_STORE_PARM_VAR
   | .OP_LOAD_STORE_GROUP_VAR => [loadStoreTopErr]
-  -- self NULL: variant 1 throws with the operands unread, variant 2 skips them first
-  | .OP_LOAD_STORE_SELF_VAR =>
-    [⟨0, false, some (if caseVariant .OP_LOAD_STORE_SELF_VAR = 2 then fieldBytes else 0)⟩, loadStoreTopErr]
+  -- self NULL: skipField, throw
+  | .OP_LOAD_STORE_SELF_VAR => [⟨0, false, some fieldBytes⟩, loadStoreTopErr]
   | .OP_LOAD_STORE_OWNER_VAR => [⟨0, false, some fieldBytes⟩, ⟨0, false, some fieldBytes⟩, loadStoreTopErr]
   -- try { Pop; evalArrayAt } catch { top.Clear() }
   | .OP_STORE_ARRAY => [⟨-1, false, some 0⟩]
   | .OP_STORE_ARRAY_REF => [⟨-1, false, some 0⟩]
-  -- try { cast; NULL: peek + skipField; storeTop<true> } catch { top := ref to itself }
+  -- try { cast; NULL: peek + skipField; storeTop<true> } catch { skipField unless the operands were read; top := ref to itself }
   | .OP_STORE_FIELD_REF =>
-    [ ⟨0, false, some (if caseVariant .OP_STORE_FIELD_REF = 2 then fieldBytes else 0)⟩,   -- the cast throws (NIL, integer …)
-      ⟨0, false, some fieldBytes⟩,                                                      -- NULL listener
-      ⟨0, false, some fieldBytes⟩ ]                                                     -- storeTop<true> throws after reading
-  -- try { cast; NULL: peek; storeTop<true> } catch { skipField (variant 2: unless storeTop read them); top.Clear() }
+    [ ⟨0, false, some fieldBytes⟩,      -- the cast throws (NIL, integer …): the catch steps over the operands
+      ⟨0, false, some fieldBytes⟩,      -- NULL listener: peek + skipField
+      ⟨0, false, some fieldBytes⟩ ]     -- storeTop<true> throws after reading them
+  -- try { cast; NULL: peek; storeTop<true> } catch { skipField unless storeTop read them; top.Clear() }
   | .OP_STORE_FIELD =>
-    [ ⟨0, false, some fieldBytes⟩, ⟨0, false, some fieldBytes⟩,
-      ⟨0, false, some (if caseVariant .OP_STORE_FIELD = 2 then fieldBytes else 2 * fieldBytes)⟩ ]
+    [ ⟨0, false, some fieldBytes⟩, ⟨0, false, some fieldBytes⟩, ⟨0, false, some fieldBytes⟩ ]
   | .OP_STORE_GAME_VAR | .OP_STORE_LEVEL_VAR | .OP_STORE_LOCAL_VAR | .OP_STORE_PARM_VAR | .OP_STORE_GROUP_VAR => [storeTopErr]
   -- self NULL: Push, skipField, throw
   | .OP_STORE_SELF_VAR => [⟨1, false, some fieldBytes⟩, storeTopErr]
   | .OP_STORE_OWNER_VAR => [⟨1, false, some fieldBytes⟩, ⟨1, false, some fieldBytes⟩, storeTopErr]
-  -- Push; self NULL: (variant 1: Push again;) throw
-  | .OP_STORE_OWNER => [⟨if caseVariant .OP_STORE_OWNER = 2 then 1 else 2, false, some 0⟩]
+  -- Push; self NULL: throw
+  | .OP_STORE_OWNER => [⟨1, false, some 0⟩]
   | .OP_UN_MINUS | .OP_UN_COMPLEMENT | .OP_UN_TARGETNAME | .OP_UN_CAST_BOOLEAN | .OP_UN_INC | .OP_UN_DEC
   | .OP_UN_SIZE => [⟨0, false, some 0⟩]
   | _ => []
@@ -111,14 +108,8 @@ def errPathOk (o : Opcode) (e : ErrPath) : Bool :=
 
 def errOk (o : Opcode) : Bool := (vmErrPaths o).all (errPathOk o)
 
-/-- every error path of the decode loop, as the source reads now, restores what the verifier assumes -/
+/-- every error path of the decode loop restores what the verifier assumes -/
 def errorPathsRepaired : Bool := Opcode.all.all errOk
-
-/-- the opcodes whose error paths are *not* what the verifier assumes in the source text this model was
-transcribed from (each one is a finding of notes/C02-findings.md) -/
-def errorPathSuspects : List Opcode :=
-  [.OP_LOAD_GAME_VAR, .OP_LOAD_LEVEL_VAR, .OP_LOAD_LOCAL_VAR, .OP_LOAD_PARM_VAR, .OP_LOAD_SELF_VAR, .OP_LOAD_GROUP_VAR,
-   .OP_LOAD_OWNER_VAR, .OP_LOAD_FIELD_VAR, .OP_LOAD_STORE_SELF_VAR, .OP_STORE_FIELD_REF, .OP_STORE_FIELD, .OP_STORE_OWNER]
 
 /-- every `case` block and helper has a text this model knows -/
 def transcriptionCurrent : Bool :=
